@@ -5,7 +5,7 @@ from . import build, tlc
 
 API_MOD = os.path.join(SPEC, "API_Trace.tla")
 API_CFG = os.path.join(SPEC, "API_Trace.cfg")
-KNOWN_FILE = os.path.join(VERIF, "known_findings.json")
+KNOWN_FILE = os.environ.get("VERIF_KNOWN_FILE", os.path.join(VERIF, "known_findings.json"))   # (env: self-test of the mechanism only)
 
 
 def conf_mod(fam):
